@@ -171,6 +171,19 @@ def _check_circuit(i):
                 return False, f"bind on {target} did not raise NotImplementedError"
             except NotImplementedError:
                 pass
+    # non-gate operations: a circuit holding a reset / phase operation binds like any other (empty, irrelevant, partial and total maps)
+    from orquestra.quantum.circuits import ResetOperation
+    for mp in ({}, {sympy.Symbol("unused"): 1.0}, {a: 0.25}, {a: 0.25, b: 1.0, c: -0.5, d: 2.0}):
+        cr = Circuit([X(0), ResetOperation(1), RX(a)(1), MultiPhaseOperation((b, 0.5)), ResetOperation(0)], n_qubits=3)
+        br = cr.bind(mp)
+        if br.n_qubits != 3 or [type(o) for o in br.operations] != [type(o) for o in cr.operations] or [o.qubit_indices for o in br.operations if hasattr(o, "qubit_indices")] != \
+                [o.qubit_indices for o in cr.operations if hasattr(o, "qubit_indices")]:
+            return False, f"binding {mp} on a circuit with reset operations changed its structure"
+        if set(br.free_symbols) != set(cr.free_symbols) - set(mp) or cr.free_symbols != [a, b]:
+            return False, f"free symbols after binding {mp} on a circuit with reset operations: {br.free_symbols}"
+    r = ResetOperation(2)
+    if r.bind({a: 1.0}).qubit_indices != (2,) or list(r.free_symbols) or r.replace_params(()).qubit_indices != (2,):
+        return False, "ResetOperation.bind / replace_params does not return a reset on the same qubit"
     bound_var = RX(sympy.Sum(a * sympy.Symbol("k"), (sympy.Symbol("k"), 1, 3)))
     if list(bound_var.free_symbols) != [a] or Circuit([bound_var(0)]).bind({a: 0.5}).free_symbols:
         return False, f"a bound summation variable is reported as a free symbol: {bound_var.free_symbols}"
